@@ -120,7 +120,7 @@ func TestC31(t *testing.T) {
 
 	rnd := evid.Rand(31)
 	items := execgen.FullCorpus()
-	items = append(items, execgen.Generated(rnd, evid.N(3, 30))...)
+	items = append(items, execgen.Generated(rnd, evid.N(2, 30))...)
 	var mine []execgen.Item
 	for i, it := range items {
 		if i%evid.Shards() == evid.Shard() {
